@@ -891,6 +891,11 @@ uint32_t adfFileRead ( struct AdfFile * const file,
     while ( bytesRead < n ) {
 
         if ( file->posInDataBlk == blockSize ) {
+            if ( file->modeWrite && file->currentDataBlockChanged ) {
+                /* a read+write handle: store the modified block before loading the next */
+                adfFileFlush ( file );
+                file->currentDataBlockChanged = FALSE;
+            }
             RETCODE rc = adfFileReadNextBlock ( file );
             if ( rc != RC_OK ) {
                 adfEnv.eFct ( "adfReadFile : error reading next data block, "
